@@ -680,6 +680,40 @@ Section Validator.
 
   Inductive vres := VR (errs : list verror) | VPanic.
 
+  (** the two loops of validateCoercion, over a recursive call [rec] *)
+  Section CoercionLoops.
+    Variable rec : value -> sty -> bool -> vres.
+    (** for _, value := range fromList.Values { if err := validateCoercion(value, to.Type, false); err != nil { return err } } *)
+    Fixpoint items_loop (t : sty) (vs : list value) : vres :=
+      match vs with
+      | [] => VR []
+      | x :: r => match rec x t false with
+                  | VR [] => items_loop t r
+                  | other => other
+                  end
+      end.
+    (** the loop over the fields given ([seen]: fieldsByName, [acc]: ret), then the loop over the
+        fields defined *)
+    Fixpoint fields_loop (defs : list (name * input_def)) (p : pos) (fs : list (name * pos * value))
+             (seen : list name) (acc : list verror) : vres :=
+      match fs with
+      | [] =>
+          VR (acc ++ flat_map (fun nd => if required_arg (snd nd) && negb (mem (fst nd) seen)
+                                         then [err EObjRequired p] else [])
+                              (pi _ defs))
+      | (n, np, x) :: r =>
+          let acc1 := if mem n seen then acc ++ [err EObjDupField np] else acc in
+          match assoc n defs with
+          | Some def =>
+              match rec x (in_type def) true with
+              | VR [] => fields_loop defs p r (n :: seen) acc1
+              | other => other
+              end
+          | None => fields_loop defs p r (n :: seen) (acc1 ++ [err EObjUnknownField np])
+          end
+      end.
+  End CoercionLoops.
+
   (** validateCoercion; the result is Go's []*Error (nil = []) *)
   Fixpoint coercion (from : value) : sty -> bool -> vres :=
     fix to_loop (to : sty) (allow : bool) {struct to} : vres :=
@@ -690,15 +724,7 @@ Section Validator.
         | StNonNull t => to_loop t allow
         | StList t =>
             match from with
-            | VList _ vs _ =>
-                (fix items (vs : list value) : vres :=
-                   match vs with
-                   | [] => VR []
-                   | x :: r => match coercion x t false with
-                               | VR [] => items r
-                               | other => other
-                               end
-                   end) vs
+            | VList _ vs _ => items_loop coercion t vs
             | _ => if allow then to_loop t true else VR [err ECoerceList (v_pos from)]
             end
         | StNamed tn =>
@@ -711,27 +737,10 @@ Section Validator.
                     end)
             | Some (TInput defs) =>
                 match from with
-                | VObject _ fs p =>
-                    (fix fields (fs : list (name * pos * value)) (seen : list name) (acc : list verror) : vres :=
-                       match fs with
-                       | [] =>
-                           VR (acc ++ flat_map (fun nd => if required_arg (snd nd) && negb (mem (fst nd) seen)
-                                                          then [err EObjRequired p] else [])
-                                               (pi _ defs))
-                       | (n, np, x) :: r =>
-                           let acc1 := if mem n seen then acc ++ [err EObjDupField np] else acc in
-                           match assoc n defs with
-                           | Some def =>
-                               match coercion x (in_type def) true with
-                               | VR [] => fields r (n :: seen) acc1
-                               | other => other
-                               end
-                           | None => fields r (n :: seen) (acc1 ++ [err EObjUnknownField np])
-                           end
-                       end) fs [] []
+                | VObject _ fs p => fields_loop coercion defs p fs [] []
                 | _ => VR [err ECoerceObject (v_pos from)]
                 end
-            | _ => if q_noninput q then VR [sec ECoerceScalar (v_pos from)] else VPanic
+            | _ => if q_noninput q then VR [sec ECoerceNonInput (v_pos from)] else VPanic
             end
         end.
 
